@@ -160,8 +160,14 @@ def _run_kind(ctx, spec, rng):
                     neg, comp, hdev = certs.povm_defect(ops, d)
                     worst = max(worst, neg, comp, hdev)
             tol, how = _povm_tolerance(d, ni, no, seed, povm) if okk else (1e-9, "-")
+            mech = None
+            if okk and worst > tol and how.startswith("50 eps cond(N)"):
+                cond_n = float(how.split("=")[-1])
+                if cond_n >= 1e11 and worst <= 50 * np.finfo(float).eps * cond_n:
+                    # the defect is what the conditioning of the random normaliser explains, but it is above the 1e-5 cap: a (very rare) numerical weakness
+                    mech = "random_povm:completeness-defect-above-1e-5[normaliser-condition>=1e11]"
             _kind(ctx, "random_povm", okk and worst <= tol, (d, ni, no), {"d": d, "inputs": ni, "outputs": no, "worst_defect": worst, "tolerance": tol, "tolerance_from": how,
-                                                                          "shape": list(povm.shape)})
+                                                                          "shape": list(povm.shape)}, mech=mech)
             ctx.sample("kind:random_povm", {"d": d, "inputs": ni, "outputs": no, "worst_defect": worst})
     elif which == 6:
         g = _call(ctx, tr.random_circulant_gram_matrix, d, seed)
